@@ -269,6 +269,12 @@ pub fn child(gi: usize, pi: usize) -> i32 {
 /// expected yield of an evaluator actor from M-deals (per position, as sorted signatures are
 /// not available from the model, only positions and combos are compared)
 fn model_check(spec: &Spec, observed: &[String]) -> Option<String> {
+    let as_eval = match spec {
+        Spec::EvalDrop { cfg, scope } => Some(Spec::Eval { cfg: cfg.clone(), scope: *scope, extra: 0 }),
+        _ => None,
+    };
+    let observed: &[String] = if as_eval.is_some() && observed.last().map(|s| s.as_str()) == Some("dropped") { &observed[..observed.len() - 1] } else { observed };
+    let spec = as_eval.as_ref().unwrap_or(spec);
     if let Spec::Eval { cfg, scope, extra } = spec {
         let model = vlib::deals::model_run(cfg);
         let from = vlib::cards::pos_index(scope.0, scope.1);
@@ -431,8 +437,11 @@ pub fn run(tier: &str) -> i32 {
             }
         }
         // the unbounded space is explored when it is small enough; otherwise the preemption bound is iterated
-        let unbounded_ok = space <= if thorough { 3.0e7 } else { 5.0e5 };
-        let bounds: Vec<Option<usize>> = if unbounded_ok { vec![Some(0), Some(1), Some(2), None] } else if thorough { vec![Some(0), Some(1), Some(2), Some(3), Some(4), Some(5)] } else { vec![Some(0), Some(1), Some(2), Some(3), Some(4)] };
+        let lite = vlib::report::lite();
+        let unbounded_ok = space <= if thorough { 3.0e7 } else if lite { 2.0e4 } else { 5.0e5 };
+        let bounds: Vec<Option<usize>> = if lite && !unbounded_ok {
+            vec![Some(0), Some(1), Some(2)]
+        } else if unbounded_ok { vec![Some(0), Some(1), Some(2), None] } else if thorough { vec![Some(0), Some(1), Some(2), Some(3), Some(4), Some(5)] } else { vec![Some(0), Some(1), Some(2), Some(3), Some(4)] };
         let pf = prefixes(&lens, 4.min(total_ops));
         let mut completed = vec![];
         for b in bounds {
@@ -484,6 +493,32 @@ pub fn run(tier: &str) -> i32 {
         rep.sample(json!({"group": name, "actors": specs.iter().map(describe).collect::<Vec<_>>(), "solo_sequence_of_actor_0": solos[0]}));
     }
     rep.machine(total_steps, total_steps, total_schedules);
+
+    // (A1b) long churn: the long-lived evaluator is stopped after each of its operations in turn, a solver loop then
+    // builds, uses and drops an evaluator on each of N distinct flops (more than any small table, cache or interning
+    // scheme can hold), and the long-lived one continues. One preemption, placed everywhere; N far beyond what the
+    // interleaving search can afford.
+    {
+        let n_flops = if thorough { 10_000 } else { 1_500 };
+        let specs = long_churn_specs(n_flops);
+        let solos: Vec<Vec<String>> = specs.iter().map(solo_safe).collect();
+        let la = solos[0].len();
+        let lc = solos[1].len();
+        let outs = par_map(la + 1, |k| {
+            let mut sched: Vec<u8> = vec![0; k];
+            sched.extend(std::iter::repeat(1u8).take(lc));
+            sched.extend(std::iter::repeat(0u8).take(la - k));
+            execute(&specs, &solos, &sched).map(|v| (k, v))
+        });
+        let mut n = 0u64;
+        for o in outs {
+            n += 1;
+            if let Some((k, v)) = o {
+                rep.violation(Violation { key: format!("long churn: {} flops after operation {} of the long-lived evaluator", lc, k), sub: "long-churn".into(), case: json!({"long_churn_flops": n_flops, "after_operation": k}), expected: json!("each actor observes the sequence it observes alone"), observed: v });
+            }
+        }
+        rep.sub("long-churn", &format!("a long-lived evaluator ({} operations) stopped after each of its operations in turn while a solver loop builds, uses and drops an evaluator on each of {} distinct flops, then continued: every observation of both equals the solo run", la, lc), n, n, true, json!({"flops": lc, "split_points": la + 1}));
+    }
 
     // (A2) thread hand-offs on REAL OS threads: every operation of every interleaving is run on one of two
     // fresh OS threads, for every assignment of operations to threads. The calls are strictly sequential (the
@@ -604,8 +639,85 @@ pub fn run(tier: &str) -> i32 {
                     }
                 }
             }
+            // process-per-execution search: every execution in a FRESH process, so that the subject's statics, OnceLocks
+            // and tables start empty each time and two *first* uses of a flop can be interleaved in every schedule
+            if rep.violations_total == 0 {
+                let g = "two-threads/x-then-y";
+                let budget = std::time::Duration::from_secs(if thorough { 600 } else { 45 });
+                for bound in [0usize, 1, 2] {
+                    let started = std::time::Instant::now();
+                    let mut prefix: Vec<(u64, u64)> = vec![];
+                    let mut n = 0u64;
+                    let mut complete = false;
+                    let mut note = Value::Null;
+                    loop {
+                        let enc: String = prefix.iter().map(|(i, k)| format!("{},{}", i, k)).collect::<Vec<_>>().join(";");
+                        let o = std::process::Command::new(&sbin).arg(tier).env("SCHED_SEQUENTIAL", "1").env("SCHED_ONLY", g).env("SCHED_PREEMPTION_BOUND", bound.to_string()).env("SCHED_SINGLE_PREFIX", enc).env("RUST_BACKTRACE", "0").output();
+                        let v: Value = match o {
+                            Ok(o) => String::from_utf8_lossy(&o.stdout).lines().rev().find(|l| l.starts_with('{')).and_then(|l| serde_json::from_str::<Value>(l).ok()).and_then(|v| v["groups"].as_array().and_then(|a| a.first().cloned())).unwrap_or(json!({"crashed": format!("{:?}", o.status)})),
+                            Err(e) => json!({"crashed": e.to_string()}),
+                        };
+                        n += 1;
+                        if v.get("crashed").is_some() {
+                            note = json!({"stopped": "a child process did not report", "detail": v});
+                            break;
+                        }
+                        if !v["failure"].is_null() {
+                            let f = v["failure"].as_str().unwrap_or("").to_string();
+                            if f.contains("diverged while replaying") {
+                                note = json!({"stopped": "an execution did not follow its schedule prefix (nondeterminism outside the scheduler's control)", "detail": f});
+                            } else {
+                                rep.violation(Violation { key: format!("instrumented threads, one process per execution, group={} preemption_bound={} path={}", g, bound, prefix.iter().map(|(i, _)| i.to_string()).collect::<Vec<_>>().join("")), sub: "instrumented".into(), case: json!({"group": g, "bound": bound, "path": prefix}), expected: json!("every evaluator deals its own flop, five distinct board cards and its range's hole cards off the board, under every schedule with at most this many preemptions inside calls"), observed: json!(f) });
+                            }
+                            break;
+                        }
+                        let mut l: Vec<(u64, u64)> = v["levels"].as_array().map(|a| a.iter().map(|x| (x[0].as_u64().unwrap_or(0), x[1].as_u64().unwrap_or(1))).collect()).unwrap_or_default();
+                        loop {
+                            match l.last_mut() {
+                                None => break,
+                                Some((i, k)) => {
+                                    if *i + 1 < *k {
+                                        *i += 1;
+                                        break;
+                                    }
+                                }
+                            }
+                            l.pop();
+                        }
+                        if l.is_empty() {
+                            complete = true;
+                            break;
+                        }
+                        prefix = l;
+                        if started.elapsed() > budget {
+                            note = json!({"stopped": "time budget used up"});
+                            break;
+                        }
+                    }
+                    total += n;
+                    results.push(json!({"group": g, "mode": "one fresh process per execution", "preemption_bound": bound, "schedules": n, "complete": complete, "note": note}));
+                    if rep.violations_total > 0 || !complete {
+                        break;
+                    }
+                }
+            }
+            // SAMPLING (labelled, supporting): random schedules of the x-then-y group inside ONE process, where the flops
+            // advance from execution to execution and the subject's process-wide state accumulates - the one situation
+            // neither search above reproduces (a replaying depth-first search needs executions that start from the same state)
+            if rep.violations_total == 0 {
+                let g = "two-threads/x-then-y";
+                let o = std::process::Command::new(&sbin).arg(tier).env("SCHED_SEQUENTIAL", "1").env("SCHED_ONLY", g).env("SCHED_RANDOM", "1").env("RUST_BACKTRACE", "0").output();
+                let v: Value = match o {
+                    Ok(o) => String::from_utf8_lossy(&o.stdout).lines().rev().find(|l| l.starts_with('{')).and_then(|l| serde_json::from_str::<Value>(l).ok()).and_then(|v| v["groups"].as_array().and_then(|a| a.first().cloned())).unwrap_or(json!({"crashed": format!("{:?}", o.status)})),
+                    Err(e) => json!({"crashed": e.to_string()}),
+                };
+                if let Some(f) = v["failure"].as_str() {
+                    rep.violation(Violation { key: format!("instrumented threads group={} random schedules with accumulating process state (SAMPLING)", g), sub: "instrumented-sampling".into(), case: json!({"group": g, "mode": "random"}), expected: json!("every evaluator deals from its own deck"), observed: json!(f) });
+                }
+                results.push(json!({"group": g, "mode": "SAMPLING - random schedules in one process, flops advancing, state accumulating; supporting evidence only", "result": v["failure"]}));
+            }
             rep.machine(total.max(1), total.max(1), total);
-            rep.sub("instrumented", "shuttle thread programs against the instrumented copy of /repo/src (std::sync::{Mutex,RwLock,atomic,..}, thread_local! and std::thread redirected to shuttle): every lock, atomic and thread-local access inside a call is a scheduling point; own preemption-bounded DFS scheduler, bound iterated 0, 1, 2, all schedules within the bound (or the stated cap)", total, total, false, json!({"generator": info, "runs": results}));
+            rep.sub("instrumented", "shuttle thread programs against the instrumented copy of /repo/src (std::sync::{Mutex,RwLock,atomic,..}, thread_local! and std::thread redirected to shuttle): every lock, atomic and thread-local access inside a call is a scheduling point; own preemption-bounded DFS scheduler, bound iterated 0, 1, 2, all schedules within the bound (or the stated cap); the group x-then-y (two first uses of one flop, then of another) is searched with ONE FRESH PROCESS PER EXECUTION, the parent holding the depth-first stack, so that process-wide state starts empty in every schedule", total, total, false, json!({"generator": info, "runs": results}));
         }
     }
 
@@ -701,6 +813,15 @@ pub fn replay(case: &Value) -> Value {
             let sched: Vec<u8> = s.iter().map(|x| x.as_u64().unwrap() as u8).collect();
             return json!({"group": g, "schedule": sched, "divergence": execute(&specs, &solos, &sched)});
         }
+    }
+    if let (Some(n), Some(k)) = (case["long_churn_flops"].as_u64(), case["after_operation"].as_u64()) {
+        let specs = long_churn_specs(n as usize);
+        let solos: Vec<Vec<String>> = specs.iter().map(solo_safe).collect();
+        let (la, lc, k) = (solos[0].len(), solos[1].len(), k as usize);
+        let mut sched: Vec<u8> = vec![0; k.min(la)];
+        sched.extend(std::iter::repeat(1u8).take(lc));
+        sched.extend(std::iter::repeat(0u8).take(la - k.min(la)));
+        return json!({"long_churn_flops": n, "after_operation": k, "divergence": execute(&specs, &solos, &sched)});
     }
     json!({"note": "thread-schedule failures carry shuttle's schedule string in the recorded observation; re-run ./check C15 quick to reproduce", "case": case})
 }
